@@ -175,7 +175,11 @@ func annotation(e *Ex) []byte {
 		a.s("}")
 	}
 	if e.Note != nil {
-		a.s(" - ")
+		if n > 0 {
+			a.s(" - ")
+		} else {
+			a.s(" ")
+		}
 		a.bs(e.Note)
 	}
 	return a.b
